@@ -5,6 +5,12 @@ open Goloop Goloop.C33
 
 abbrev St := Option Pool
 
+/-- relay nodes (ops rnode/peer/rpkt) keep their peers here; `none` pool = no node -/
+structure RSt where
+  pool : Option Pool
+  selfRole : UInt8
+  peers : List PeerInfo
+
 def b01 (b : Bool) : String := if b then "1" else "0"
 
 def joinNat (xs : List String) : String := ",".intercalate xs
@@ -21,7 +27,25 @@ def idBytes (n : Nat) : Bytes := [UInt8.ofNat (n / 256), UInt8.ofNat n]
 def bool? (s : String) : Option Bool :=
   if s = "1" then some true else if s = "0" then some false else none
 
+def ctlStr : Ctl → String
+  | .queryReq => "control-queryreq" | .queryResp => "control-queryresp"
+  | .rttReq => "control-rttreq" | .rttResp => "control-rttresp"
+  | .connReq => "control-connreq" | .connResp => "control-connresp"
+
+def idNum : Bytes → Nat
+  | [hi, lo] => hi.toNat * 256 + lo.toNat
+  | _ => 0
+
+def insertSorted (x : Nat) : List Nat → List Nat
+  | [] => [x]
+  | y :: ys => if x ≤ y then x :: y :: ys else y :: insertSorted x ys
+
+def sortNat (xs : List Nat) : List Nat := xs.foldr insertSorted []
+
 def outcomeStr : Outcome → String
+  | .control c => ctlStr c
+  | .closeCtlSub => "close-ctlsub"
+  | .closeCtlProto => "close-ctlproto"
   | .closeNotRegistered => "close"
   | .dropUndetermined => "drop-undetermined"
   | .dropSelfSrc => "drop-self"
@@ -31,9 +55,8 @@ def outcomeStr : Outcome → String
   | .dropDuplicate => "drop-dup"
   | .closeNoCallback => "close-nocb"
 
-def step (s : St) (toks : List String) : St × String :=
+def stepOld (s : St) (toks : List String) : St × String :=
   match toks with
-  | ["reset"] => (none, "ok")
   | [op, nb, bl] =>
     if op = "new" ∨ op = "node" then
       match nb.toNat?, bl.toNat? with
@@ -79,5 +102,58 @@ def step (s : St) (toks : List String) : St × String :=
     | _, _, _, _, _, _, _, _, _, _ => (s, "bad-op")
   | _ => (s, "bad-op")
 
+def step (s : RSt) (toks : List String) : RSt × String :=
+  match toks with
+  | ["reset"] => ({ pool := none, selfRole := 0, peers := [] }, "ok")
+  | ["rnode", nb, bl, role] =>
+    match nb.toNat?, bl.toNat?, role.toNat? with
+    | some n, some l, some r =>
+      if n = 0 ∨ n ≥ 256 ∨ l ≥ 65536 ∨ r ≥ 256 then (s, "bad-op")
+      else ({ pool := some (newPool n l), selfRole := UInt8.ofNat r, peers := [] }, "ok")
+    | _, _, _ => (s, "bad-op")
+  | ["peer", id, ct, hp] =>
+    match s.pool, id.toNat?, ct.toNat?, bool? hp with
+    | some _, some i, some c, some h =>
+      if i = 0 ∨ i ≥ 65536 ∨ c ≥ 7 ∨ s.peers.any (fun p => p.id == idBytes i) then (s, "bad-op")
+      else ({ s with peers := s.peers ++ [{ id := idBytes i, connType := c, hasProto := h, known := [] }] },
+            s!"ok {s.peers.length}")
+    | _, _, _, _ => (s, "bad-op")
+  | ["rpkt", idx, role, src, dest, ttl, hash, rel] =>
+    match s.pool, idx.toNat?, role.toNat?, src.toNat?, dest.toNat?, ttl.toNat?, hash.toNat?, bool? rel with
+    | some p, some ix, some ro, some sr, some de, some tt, some hv, some rl =>
+      match s.peers[ix]? with
+      | some pe =>
+        if ro ≥ 256 ∨ sr ≥ 65536 ∨ de ≥ 256 ∨ tt ≥ 256 ∨ hv ≥ 2 ^ 64 ∨ hv = 0 then (s, "bad-op")
+        else
+          let e : Ev := { peerHasProto := pe.hasProto, connNone := pe.connType == 0, self := idBytes 0,
+                          peerId := pe.id, peerRole := UInt8.ofNat ro, src := idBytes sr,
+                          dest := UInt8.ofNat de, ttl := UInt8.ofNat tt, hasCb := true,
+                          hash := UInt64.ofNat hv }
+          let r := nodeStep { pool := p, selfRole := s.selfRole, peers := s.peers } ix e rl
+          let ids := sortNat (r.2.2.map idNum)
+          let rs := if ids.isEmpty then "-" else ",".intercalate (ids.map toString)
+          ({ s with pool := some r.1.pool, peers := r.1.peers }, s!"{outcomeStr r.2.1} {rs}")
+      | none => (s, "bad-op")
+    | _, _, _, _, _, _, _, _ => (s, "bad-op")
+  | ["cpkt", hp, ver, sub] =>
+    match s.pool, bool? hp, ver.toNat?, sub.toNat? with
+    | some p, some h, some v, some sb =>
+      if v ≥ 256 ∨ sb ≥ 65536 then (s, "bad-op")
+      else
+        let e : Ev := { peerHasProto := h, connNone := false, self := idBytes 0, peerId := idBytes 9,
+                        peerRole := 0, src := idBytes 9, dest := destPeer, ttl := 1, hasCb := true,
+                        hash := 1, protoId := 0, protoVer := UInt8.ofNat v, sub := sb }
+        let r := onPacketFull p e
+        ({ s with pool := some r.1 }, outcomeStr r.2)
+    | _, _, _, _ => (s, "bad-op")
+  | _ =>
+    let r := stepOld s.pool toks
+    -- `new`/`node` start a fresh object without peers
+    match toks with
+    | [op, _, _] => if op = "new" ∨ op = "node" then ({ pool := r.1, selfRole := 0, peers := [] }, r.2)
+                    else ({ s with pool := r.1 }, r.2)
+    | _ => ({ s with pool := r.1 }, r.2)
+
 end Goloop.Driver.C33
-def main : IO Unit := Goloop.Proto.run Goloop.Driver.C33.step none
+def main : IO Unit :=
+  Goloop.Proto.run Goloop.Driver.C33.step { pool := none, selfRole := 0, peers := [] }
